@@ -795,13 +795,15 @@ class Outputs:
 
         all_filenames: dict[str, dict[str, str]] = {}
 
+        # Get all entries, a mapping may contain several buckets
+        # (e.g. {'detector.image.array': ['fits'], 'detector.pixel.array': ['npy']})
         dct: Mapping[ValidName, Sequence[ValidFormat]]
-        for dct in self.save_data_to_file:
-            # TODO: Why looking at first entry ? Check this !
-            # Get first entry of `dict` 'item'
-            first_item: tuple[ValidName, Sequence[ValidFormat]]
-            first_item, *_ = dct.items()
+        all_items: Sequence[tuple[ValidName, Sequence[ValidFormat]]] = [
+            item for dct in self.save_data_to_file for item in dct.items()
+        ]
 
+        first_item: tuple[ValidName, Sequence[ValidFormat]]
+        for first_item in all_items:
             valid_name: ValidName
             format_list: Sequence[ValidFormat]
             valid_name, format_list = first_item
